@@ -178,16 +178,22 @@ AmoS(S, ls0) ==
                            a == AddAll(cj.S, Cl, 1)
                        IN IF a.ok THEN Ret(Put(a.S, k, c), c) ELSE Ret(a.S, FalseLit)
 
+\* variant (overridden with TRUE by MC_ReifyImpl_cachefirst.cfg): the expression cache consulted before the cases 'an argument is
+\* true at root level' / 'a repeated argument' - the seeded change C13-i in model form; ReifiedMeaning fails
+CacheFirstBug == FALSE
+
 \* ---- new_exct_one ------------------------------------------------------------------------------------------------------------------
 RECURSIVE ExoS(_, _)
 ExoS(S, ls0) ==
   LET sc == CardScan(S, Sort(ls0, <<>>, FALSE), 1, None, <<>>, <<>>)
   IN IF sc[1] = "false" THEN Ret(S, FalseLit)
+     ELSE IF CacheFirstBug /\ sc[1] = "true" /\ Cached(S, <<"exo", sc[2]>>) THEN Ret(S, S.exprs[<<"exo", sc[2]>>])
      ELSE IF sc[1] = "true" THEN ConjS(S, NegAll(sc[2]))
      ELSE LET ls == sc[2]
               reps == sc[3]
               k == <<"exo", ls>>
-          IN IF reps # <<>>
+          IN IF CacheFirstBug /\ reps # <<>> /\ Cached(S, <<"exo", Without(ls, reps)>>) THEN Ret(S, S.exprs[<<"exo", Without(ls, reps)>>])
+             ELSE IF reps # <<>>
              THEN LET a == ExoS(S, Without(ls, reps)) IN ConjS(a.S, NegAll(reps) \o <<a.ret>>)
              ELSE IF ls = <<>> THEN Ret(S, FalseLit)
              ELSE IF Len(ls) = 1 THEN Ret(S, ls[1])
